@@ -12,7 +12,7 @@ import (
 func init() {
 	Register(&Property{
 		ID: "C19", Level: "exploration",
-		Rule: "E1/E2: 7 methods x {considered = known, subset} x valuesRange {observed, declared} x data {root, one criterion with a degenerate range} x start state {root, after each core bias} x " +
+		Rule: "E1/E2: 7 methods x {considered = known, subset} x valuesRange {observed, declared} x data {root, one criterion with a degenerate range, one strictly negative criterion} x start state {root, after each core bias} x " +
 			"anchoring alternatives {a; c; a+c(0.5); b(2)+a; a+b+c} x {ideal,nadir} x gain/loss {zero; linear; linear with offset; expFromZero; exp with alpha 0} x " +
 			"applier {inline; inline+notConsidered; inline bounded; newCriterion x 3 reference strategies; newCriterion bounded}. One real Anchoring.Apply per case. Oracle: reference point per criterion " +
 			"(coefficient-weighted best/worst, any tied value), mapped differences gain(d)/-loss(-d) with d scaled by the value range, inline: v' = bound(v + range*mean), reported difference = new-old for " +
@@ -236,7 +236,30 @@ func c19Check(c *Case) []Violation {
 			if rv, ok := av[a.ID]; !ok || asF(rv) != got {
 				vs = append(vs, viol(c, "C19/newCriterion/report-values", "report lists %v for %s, handed on %v", av[a.ID], a.ID, got))
 			}
-			if len(bs) == 1 && imp != nil {
+			floorActive := false
+			for _, cr := range prev.Criteria {
+				if imp != nil && imp[cr.ID] < 0.01 {
+					floorActive = true // importance below the implementation's floor: the weighted mean is not pinned by the statement
+				}
+			}
+			if floorActive {
+				stat("newCriterion_value_not_checked_importance_below_floor")
+			}
+			if floorActive {
+				// any non-negative weights summing to 1: the weighted mean lies between the smallest and largest mapped difference
+				lom, him := math.Inf(1), math.Inf(-1)
+				for _, cr := range prev.Criteria {
+					lom, him = math.Min(lom, mapped[a.ID][cr.ID]), math.Max(him, mapped[a.ID][cr.ID])
+				}
+				wl, wh := boundRef(lo+half+half*lom, lo, hi, bscaling, nonneg), boundRef(lo+half+half*him, lo, hi, bscaling, nonneg)
+				if wl > wh {
+					wl, wh = wh, wl
+				}
+				if got < wl-1e-9 || got > wh+1e-9 {
+					vs = append(vs, viol(c, "C19/newCriterion/value-not-a-weighted-mean", "alternative %s: anchoring criterion value %v is not mid + half * (a weighted mean of the mapped differences %v): allowed [%v,%v]", a.ID, got, mapped[a.ID], wl, wh))
+				}
+			}
+			if len(bs) == 1 && imp != nil && !floorActive {
 				total := 0.0
 				for _, cr := range prev.Criteria {
 					total += imp[cr.ID]
@@ -296,15 +319,18 @@ func c19Run(s *Shard) {
 	sampled := false
 	for _, method := range allMethods {
 		for _, subset := range []bool{false, true} {
-			for _, variant := range []int{0, 1, 2} { // observed range, declared range, degenerate c3
+			for _, variant := range []int{0, 1, 2, 3} { // observed range, declared range, degenerate c3, strictly negative c1
 				root := rootRequest(method, subset, variant == 1)
 				if variant == 2 {
 					for _, a := range asL(root["knownAlternatives"]) {
 						asM(asM(a)["criteria"])["c3"] = 2.0
 					}
 				}
+				if variant == 3 {
+					root = negativeVariant(root)
+				}
 				for pi, pre := range prefixes {
-					if variant == 2 && pi > 0 {
+					if variant >= 2 && pi > 0 {
 						continue
 					}
 					if !s.Take() {
